@@ -43,17 +43,26 @@ pub trait ManifestJson: Sized {
     spec fn from_json(b: Seq<u8>) -> Option<Self>;
 }
 
-/// the archive that `ZipReader::new(inner)` presents (uninterpreted)
-pub uninterp spec fn zip_of<R>(inner: R) -> ZipV;
+/// the archive that a zip file with the given bytes presents (async_zip central
+/// directory parsing + inflate: uninterpreted)
+pub uninterp spec fn zip_of_bytes(content: Seq<u8>) -> ZipV;
+/// a seekable byte source an archive is read from
+pub trait ArchiveSource {
+    spec fn content(&self) -> Seq<u8>;
+}
+/// the archive `ZipReader::new(inner)` presents
+pub open spec fn zip_of<R: ArchiveSource>(inner: R) -> ZipV { zip_of_bytes(inner.content()) }
 
-impl<R> ZipReader<R> {
+impl<R: ArchiveSource> ZipReader<R> {
     /// crates/archive/src/reader.rs:13 `Reader::new` (`ZipFileReader::with_tokio`):
     /// parses the central directory; the archive seen is a function of the
-    /// underlying reader (`zip_of`, uninterpreted).
+    /// bytes of the underlying reader.
     #[verifier::external_body]
     pub fn new(inner: R) -> (r: ZipResult<Self>)
         ensures r matches Ok(z) ==> z@ == zip_of(inner),
     { unimplemented!() }
+}
+impl<R> ZipReader<R> {
 
     /// crates/archive/src/reader.rs:30 `Reader::by_name` — see `ZipV`.
     #[verifier::external_body]
@@ -81,9 +90,15 @@ impl<R> ZipReader<R> {
 #[verifier::reject_recursive_types(R)]
 pub struct BufReader<R> { _r: core::marker::PhantomData<R> }
 impl<R> BufReader<R> {
+    pub uninterp spec fn inner_spec(&self) -> R;
     #[verifier::external_body]
     pub fn new(inner: R) -> (r: BufReader<R>)
+        ensures r.inner_spec() == inner,
     { unimplemented!() }
+}
+/// an open file read from the start presents the content it had when it was opened
+impl ArchiveSource for BufReader<File> {
+    open spec fn content(&self) -> Seq<u8> { self.inner_spec()@.snap }
 }
 
 // ---- comparisons (Sha256::digest one-shot: prelude/files_hash.rs) ------------------------
